@@ -89,6 +89,11 @@ func VerifH_grpc_recv() {
 		s.opts.statsHandler = st
 	}
 	msg := newFakeMsg(schemaRoute())
+	// known finding F-D39 (C08): a compressed frame LONGER than the receive limit around a message
+	// within it is refused (the size is "measured after decompression": such a message is within the
+	// limit); violations inside this region are reported as KNOWN-FINDING, see known_findings.json
+	size0 := uint32(hdr[1])<<24 | uint32(hdr[2])<<16 | uint32(hdr[3])<<8 | uint32(hdr[4])
+	vfKnown("F-D39", hdr[0] == 1 && fc != nil && !codec.failNext && uint64(size0) > uint64(limit) && uint64(size0) <= uint64(avail) && len(fc.out) <= limit)
 	err := s.RecvMsg(msg)
 	if st != nil {
 		// stats never change the outcome (C18); one in-payload event per decoded message, true length
@@ -127,8 +132,8 @@ func VerifH_grpc_recv() {
 	if !compressed && uint64(size) <= uint64(limit) && uint64(size) <= uint64(avail) {
 		vfFail("a complete, uncompressed frame within the receive limit was refused")
 	}
-	if compressed && fc != nil && uint64(size) <= uint64(limit) && uint64(size) <= uint64(avail) && len(fc.out) <= limit {
-		vfFail("a compressed frame that is within the limit before and after decompression was refused")
+	if compressed && fc != nil && uint64(size) <= uint64(avail) && len(fc.out) <= limit {
+		vfFail("a complete compressed frame whose message is within the receive limit (measured after decompression) was refused")
 	}
 	if uint64(size) > uint64(limit) {
 		vfCover("over-limit")
